@@ -139,6 +139,9 @@ def _solve_case(case, spl, ps):
         phi, rho = _grids(MPI, comm, eta, nprocs)
         solver = ps.DiffEqSolver(quad, rspline, nr, nth, lNeumannIdx=list(lN), uNeumannIdx=list(uN),
                                  ddrFactor=lambda x: A, drFactor=co.B, rFactor=co.Cc, ddThetaFactor=co.D, rhoFactor=co.E)
+        # a second live solver with other boundary conditions / degree of exactness (never used): must not influence the first
+        decoy = ps.DiffEqSolver(max(1, quad - 1), rspline, nr, nth, lNeumannIdx=list(uN), uNeumannIdx=[], ddrFactor=lambda x: -2.0,
+                                rFactor=lambda x: 1.0)
         L = rho.getLayout('mode_solve')
         out = []
         for R in (RHO, RHO2, al * RHO + be * RHO2):
@@ -151,6 +154,12 @@ def _solve_case(case, spl, ps):
         mchg = 1 % nth
         R3[:, mchg, :] += 1.0 + 2.0j
         rho.getAllData()[:] = lo.expected_block(R3, L)
+        phi.getAllData()[:] = np.nan
+        solver.solveEquation(phi, rho)
+        out.append((tuple(L.dims_order), [int(x) for x in L.starts], [int(x) for x in L.ends], np.array(phi.getAllData(), copy=True)))
+        # history: the other entry point in between, then the very first right-hand side again -> bit-identical result expected
+        solver.solveEquationForFunction(phi, lambda x: 1.0 + 0.3 * x)
+        rho.getAllData()[:] = lo.expected_block(RHO, L)
         phi.getAllData()[:] = np.nan
         solver.solveEquation(phi, rho)
         out.append((tuple(L.dims_order), [int(x) for x in L.starts], [int(x) for x in L.ends], np.array(phi.getAllData(), copy=True)))
@@ -167,7 +176,7 @@ def _solve_case(case, spl, ps):
         return result(VIOL, cls=[base + "/exception"], events=ev, key="C14:exception:%s" % type(err[1]).__name__,
                       what="rank %d raised %r (p=%d, %d cells, lNeumann=%r, uNeumann=%r)" % (err[0], err[1], p, nc, lN, uN), witness=wit)
     sols = []
-    for q in range(4):
+    for q in range(5):
         G, cover = lo.assemble([res[q] for res in w.results], (nr, nth, nz))
         if not (cover == 1).all():
             return result(VIOL, cls=[base], events=ev, key="C14:coverage", what="phi blocks do not tile the grid", witness=wit)
@@ -214,6 +223,12 @@ def _solve_case(case, spl, ps):
         return result(VIOL, cls=sorted(cls), events={**ev, **evn}, key="C14:galerkin-solution/%s/bc-%s" % (space, worst[5]),
                       what="solveEquation (p=%d, %d cells, quad %d, A=%g, mode %d, z %d, bc %s, P=%d): differs from the dense Galerkin solution by %.3g (tol %.3g)"
                       % (p, nc, quad, A, worst[3], worst[4], worst[5], Pn, worst[1], worst[2]), witness=wit)
+    evn["identity_checks"] += 1
+    cls.add("%s/repeat-after-other-entry-point" % base)
+    if not lo.bits_equal(sols[4], sols[0]):
+        return result(VIOL, cls=sorted(cls), events={**ev, **evn}, key="C14:repeated-solve-differs",
+                      what="solving the same right-hand side again on the same solver (after solveEquationForFunction in between) gives a different result (max change %.3g)"
+                      % float(np.nanmax(np.abs(sols[4] - sols[0]))), witness=wit)
     # linearity and mode independence on the real code
     if evn["skipped_illconditioned_modes"] == 0:
         scale = max(float(np.abs(s_).max()) for s_ in sols[:3]) + 1e-300
